@@ -5,6 +5,10 @@ HERE = os.path.dirname(os.path.dirname(os.path.abspath(__file__)))
 
 # id -> (technique, level text, level note, design section)
 CHECKS = {
+ "C03": ("exhaustive enumeration of small inputs per family (byte strings, lexical-unit sequences, document prefixes and token mutations, A2ML unit sequences, nesting ladder) x configurations, each executed on the real loader under catch_unwind, overflow checks and a hang watchdog",
+         "All byte strings of length <= 2 and all strings of length <= 4 (thorough 5) over a 14-byte alphabet through load(file); all sequences of <= 3 (4) lexical units, spaced and unspaced, bare / inside MODULE / inside IF_DATA with A2ML, crossed with strict, a2ml_spec none/valid/invalid and entry point load_from_string / load_fragment; one more unit for a single configuration; every byte prefix and every single-token deletion, duplication and swap of every carrier and rich document; all A2ML unit sequences of <= 3/4 (4/5) units as in-file A2ML and as built-in specification; nesting ladder 1..64. The harness is built with overflow checks and debug assertions so that arithmetic overflow is a panic.",
+         "inputs longer than the bounds, stack exhaustion by nesting deeper than 64 and memory exhaustion by size are outside the explored space; a hang is reported by a 20 s watchdog",
+         "DESIGN.md 5/C03"),
  "C05": ("deviation-bounded exhaustive enumeration of layouts (whitespace/comment shape at every token gap, pairs on selected documents) with a token-line oracle from an independent tokenizer; exhaustive single-edit histories per list kind with an exact line-diff oracle",
          "(i)/(ii): every carrier and rich document x 7 whitespace shapes at every gap the scope allows x 7 comment shapes at every block-level gap, CRLF, all pairs of such deviations on selected documents: each significant token is on the same line in input and output, and the writer's own output is reproduced byte for byte. (iii): for each of 18 module-level list kinds, a 3-element document in 3 layouts x {edit string field, edit numeric field, remove first/middle/last, push builder-made element with/without sort_new_items}: the new text equals the old text with exactly the lines of that object changed, removed or inserted.",
          "scope of the quantifier (canonical order, include-free, no raw line breaks in strings, comments only between sub-elements); nested list kinds are represented by ANNOTATION/AXIS_DESCR-like children only through the layout part",
